@@ -247,7 +247,9 @@ func (rr *DefaultRelationsResolver) parseAdd(states S) S {
 	changed := true
 	for changed {
 		changed = false
-		for _, name := range states {
+		// iterate over the growing result, so Add relations of states which
+		// were added by other Add relations are followed (transitive closure)
+		for _, name := range ret {
 			state := rr.Machine.schema[name]
 
 			if slices.Contains(rr.statesBefore, name) && !state.Multi {
